@@ -518,10 +518,12 @@ def vacuity(outcomes, results, tier):
             sub = [r for r in judged if r["info"].get("family") == fam and r["info"].get("power1") == p1]
             if not sub:
                 return "no %s-set rotation with power %s was judged" % (fam, "1" if p1 else ">1")
-            if not any(r["info"].get("perm_nonidentity") for r in sub):
-                return "no %s-set rotation with power %s re-ordered its modes: the sorting bookkeeping was never exercised" % (fam, "1" if p1 else ">1")
         if not any(r["info"].get("real_loadings") and r["info"].get("power1") for r in judged if r["info"].get("family") == fam):
             return "no real %s-set loadings at power 1: sign and Varimax-criterion clauses never evaluated" % fam
+    # which rotations re-order their modes depends on the seed's data: demand it once per family, not per power
+    for fam in ("single", "cross"):
+        if not any(r["info"].get("perm_nonidentity") for r in judged if r["info"].get("family") == fam):
+            return "no %s-set rotation re-ordered its modes: the sorting bookkeeping was never exercised" % fam
     for comp in (True, False):
         if not any(r["info"].get("compute") == comp for r in judged):
             return "compute=%s never judged" % comp
